@@ -1,394 +1,142 @@
 package main
 
-// The type zoo: environment types for the name-resolution (C16) and typing (C03) properties.
-// Struct shapes with embedded structs by value and by pointer, shadowing at depths 1-3, genuine
-// ambiguity, unexported members, methods on value and pointer receivers (declared and promoted),
-// func-typed members, typed and untyped maps, nested members; plus reflect.StructOf shapes.
+// The environment zoo used by the end-to-end stages (compile / VM / Spec correspondence).
+// Environment functions are closures over a per-environment call log; their behaviour is mirrored by
+// `libCall` in lean/ExprModel/Drv/Code.lean (ids = field names).
 
 import (
 	"fmt"
-	"math/rand"
 	"reflect"
 )
 
-// ---- building blocks ------------------------------------------------------------------------
-
-type ZA struct {
-	X int
-	Y string
-}
-type ZB struct {
-	X float64
-	Z bool
-}
-type ZDeep struct {
-	X string
-	W int
-}
-type ZMid struct {
-	ZDeep
-	V int
-}
-type ZMidP struct {
-	*ZDeep
-	V uint8
-}
-type ZTop struct {
-	ZMid
-	U int
-}
-type ZC struct {
-	ZA int // a field named like an embedded type elsewhere
-}
-type zhidden struct {
-	Pub  int
-	priv int
-}
-type ZMyInt int
-type ZMyStr string
-
-// methods on building blocks (promoted when embedded)
-type ZMethV struct{ N int }
-
-func (z ZMethV) ValM(i int) int        { return z.N + i }
-func (z *ZMethV) PtrM(s string) string { return s }
-
-type ZMethW struct{ K string }
-
-func (z ZMethW) ValM(i int) int { return i } // clashes with ZMethV.ValM when both embedded
-func (z ZMethW) OnlyW() string  { return z.K }
-
-type ZFieldValM struct {
-	ValM int // a field named like ZMethV's method
-	Foo  int
-}
-
-type ZStringer interface {
-	Str() string
-}
-type zstr struct{}
-
-func (zstr) Str() string { return "zstr" }
-
-// ---- environments ---------------------------------------------------------------------------
-
-// outer field declared before an embedded struct with the same field
-type EnvShadowBefore struct {
-	X int
-	ZA
-}
-
-// outer field declared after it
-type EnvShadowAfter struct {
-	ZA
-	X int
-}
-
-// genuine ambiguity at depth 1
-type EnvAmbig struct {
-	ZA
-	ZB
-}
-
-// X at depth 1 (ZB) and at depth 2 (ZMid.ZDeep): Go resolves ZB.X
-type EnvDepth struct {
-	ZMid
-	ZB
-}
-type EnvDepthRev struct {
-	ZB
-	ZMid
-}
-
-// depth 3: X only through ZTop.ZMid.ZDeep; own field Name
-type EnvDepth3 struct {
-	ZTop
+type Sub struct {
+	X    int
 	Name string
+	Tags []string
 }
 
-// ambiguity at depth 2 (ZMid.ZDeep.X vs ZMidP.ZDeep.X, V at depth 1 twice)
-type EnvAmbigDeep struct {
-	ZMid
-	ZMidP
-}
+type CallLog struct{ Calls []string }
 
-// embedded by pointer
-type EnvPtrEmb struct {
-	*ZA
-	Q int
-}
-
-// embedded type whose name equals a field of another embedded struct, both orders
-type EnvNameClashA struct {
-	ZA
-	ZC
-}
-type EnvNameClashB struct {
-	ZC
-	ZA
-}
-
-// unexported members; unexported embedded struct with an exported field
-type EnvUnexported struct {
-	priv int
-	Pub2 string
-	zhidden
-}
-
-// embedded non-struct defined types
-type EnvEmbScalar struct {
-	ZMyInt
-	ZMyStr
-	Flag bool
-}
-
-// methods declared on the environment (value and pointer receivers)
-type EnvMeth struct {
-	Base int
-}
-
-func (e EnvMeth) Add(a, b int) int                   { return a + b + e.Base }
-func (e *EnvMeth) PtrOnly(s string) string           { return s }
-func (e EnvMeth) Var(xs ...int) int                  { return len(xs) }
-func (e EnvMeth) NoResult()                          {}
-func (e EnvMeth) Two() (int, error)                  { return 1, nil }
-func (e EnvMeth) Fast(xs ...interface{}) interface{} { return len(xs) }
-
-// promoted methods: by value, by pointer; clash between two embedded; method vs field of an embedded
-type EnvPromV struct {
-	ZMethV
-	Own int
-}
-type EnvPromP struct {
-	*ZMethV
-	Own int
-}
-type EnvMethClash struct {
-	ZMethV
-	ZMethW
-}
-type EnvMethVsField struct {
-	ZMethV
-	ZFieldValM
-}
-
-// a method declared on the environment shadows a promoted field of the same name
-type EnvMethShadowsField struct {
-	ZFieldValM
-}
-
-func (EnvMethShadowsField) Foo() string { return "method" }
-
-// embedded interface
-type EnvEmbIface struct {
-	ZStringer
-	Tag string
-}
-
-// function-typed members
-type EnvFuncs struct {
-	F     func(int) int
-	S     func(string) string
-	G     func(...interface{}) interface{}
-	V     func(string, ...int) int
-	None  func()
-	Two   func() (int, int)
-	h     func() int
-	IFn   interface{} // holds a func(int) int
-	Inner struct {
-		Fn func(string) string
-		N  int
+func (l *CallLog) add(name string, args ...interface{}) {
+	s := name
+	for _, a := range args {
+		s += " " + valSx(a).String()
 	}
+	l.Calls = append(l.Calls, s)
 }
 
-// nested members
-type EnvNested struct {
-	A   EnvDepth
-	B   EnvAmbig
-	C   EnvShadowBefore
-	P   *ZMid
-	PP  **ZA
-	PM  *map[string]int
-	M   map[string]ZA
-	MI  map[int]string
-	MS  map[ZMyStr]int
-	MA  map[string]interface{}
-	I   interface{}
-	S   []ZA
-	Str string
-	MV  EnvPromV
-	MP  *EnvPromV
-	MC  EnvMethClash
-	U   EnvUnexported
-	Fn  EnvFuncs
+type Env struct {
+	I, J  int
+	I8    int8
+	U8    uint8
+	I64   int64
+	U     uint
+	F     float64
+	F32   float32
+	S, T  string
+	B, C  bool
+	Ints  []int
+	Strs  []string
+	Anys  []interface{}
+	Fs    []float64
+	M     map[string]interface{}
+	Sub   Sub
+	P     *Sub
+	Z     interface{} // nil
+	Id    func(interface{}) interface{}
+	Inc   func(int) int
+	Add   func(int, int) int
+	Cat   func(string, string) string
+	IsPos func(int) bool
+	Fail  func() interface{}
+	Fast  func(...interface{}) interface{}
+	Sum   func(...int) int
+	Half  func(float64) float64
+	I64f  func(int64) int64 `verif:"I64"`
+
+	log *CallLog
 }
 
-// recursive type
-type EnvRec struct {
-	Name string
-	Next *EnvRec
-	Kids []EnvRec
+var envFnNames = []string{"Id", "Inc", "Add", "Cat", "IsPos", "Fail", "Fast", "Sum", "Half", "I64f"}
+
+func registerFn(name string, f interface{}) {
+	fnIDs[reflect.ValueOf(f).Pointer()] = name
 }
 
-// every scalar kind (C03)
-type EnvScalars struct {
-	I    int
-	I8   int8
-	I16  int16
-	I32  int32
-	I64  int64
-	U    uint
-	U8   uint8
-	U16  uint16
-	U32  uint32
-	U64  uint64
-	F32  float32
-	F64  float64
-	B    bool
-	Str  string
-	Any  interface{}
-	Ints []int
-	Strs []string
-	Anys []interface{}
-	Arr  [3]int
-	MSI  map[string]int
-	MII  map[int]int
-	St   ZA
-	PSt  *ZA
-	Sts  []ZA
-	My   ZMyInt
-	Fi   func(int) int
-	Fs   func(string) string
-	Ff   func(float64) float64
-	Fv   func(string, ...int) int
-	Fa   func(interface{}) interface{}
-	Fb   func(bool, int64) bool
-}
-
-func (EnvScalars) Mi(a int, b string) int { return a + len(b) }
-func (EnvScalars) Ms(s string) string     { return s }
-func (*EnvScalars) Mp(f float64) float64  { return f }
-
-// defined map type with a method
-type EnvNamedMap map[string]interface{}
-
-func (EnvNamedMap) Size() int { return 0 }
-
-type zooEnv struct {
-	Name string
-	Val  interface{} // the fully populated environment value (struct, *struct or map)
-}
-
-func init() {
-	ifaceImpls[reflect.TypeOf((*ZStringer)(nil)).Elem()] = zstr{}
-}
-
-func popIface(x interface{}) interface{} {
-	p := reflect.New(reflect.TypeOf(x))
-	fill(p.Elem(), 0)
-	zooSpecial(p.Elem())
-	return p.Elem().Interface()
-}
-
-func popPtr(x interface{}) interface{} {
-	p := reflect.New(reflect.TypeOf(x))
-	fill(p.Elem(), 0)
-	zooSpecial(p.Elem())
-	return p.Interface()
-}
-
-// zooSpecial: fields named IFn (interface{}) hold a function.
-func zooSpecial(v reflect.Value) {
-	if v.Kind() != reflect.Struct {
-		return
-	}
-	for i := 0; i < v.NumField(); i++ {
-		f := v.Field(i)
-		if v.Type().Field(i).Name == "IFn" && f.CanSet() {
-			f.Set(reflect.ValueOf(func(i int) int { return i + 1 }))
-		} else if f.Kind() == reflect.Struct {
-			zooSpecial(f)
+// NewEnv builds an environment with the given scalar/collection values and fresh logging functions.
+func NewEnv(seed int, pick func(n int) int) *Env {
+	log := &CallLog{}
+	e := &Env{log: log}
+	ints := [][]int{{}, {1}, {1, 2, 3}, {3, -1, 0, 7, 7}, {5, 4, 3, 2, 1, 0}}
+	strs := [][]string{{}, {"a"}, {"a", "b", "ab"}, {"x", "", "xyz"}}
+	anys := [][]interface{}{{}, {1, "a", true}, {nil, 2.5, int64(3)}, {1, 2, 3}}
+	scal := []int{0, 1, -1, 2, 3, 7, 10, -5, 100}
+	e.I = scal[pick(len(scal))]
+	e.J = scal[pick(len(scal))]
+	e.I8 = int8(scal[pick(len(scal))])
+	e.U8 = uint8(scal[pick(4)])
+	e.I64 = int64(scal[pick(len(scal))])
+	e.U = uint(scal[pick(4)])
+	e.F = []float64{0, 1.5, -2.25, 3, 100.5}[pick(5)]
+	e.F32 = []float32{0, 0.5, -1.5, 2}[pick(4)]
+	e.S = []string{"", "a", "abc", "hello world", "xyz"}[pick(5)]
+	e.T = []string{"", "a", "b", "abc", "lo w"}[pick(5)]
+	e.B = pick(2) == 0
+	e.C = pick(2) == 0
+	e.Ints = ints[pick(len(ints))]
+	e.Strs = strs[pick(len(strs))]
+	e.Anys = anys[pick(len(anys))]
+	e.Fs = [][]float64{{}, {1.5}, {0.5, 2, -1}}[pick(3)]
+	e.M = []map[string]interface{}{{}, {"a": 1, "b": "x"}, {"k": []interface{}{1, 2}, "n": nil, "a": 2.5}}[pick(3)]
+	e.Sub = Sub{X: scal[pick(len(scal))], Name: "sub", Tags: []string{"t1", "t2"}}
+	e.P = &Sub{X: 42, Name: "ptr", Tags: nil}
+	e.Id = func(x interface{}) interface{} { log.add("Id", x); return x }
+	e.Inc = func(x int) int { log.add("Inc", x); return x + 1 }
+	e.Add = func(a, b int) int { log.add("Add", a, b); return a + b }
+	e.Cat = func(a, b string) string { log.add("Cat", a, b); return a + b }
+	e.IsPos = func(x int) bool { log.add("IsPos", x); return x > 0 }
+	e.Fail = func() interface{} { log.add("Fail"); panic("env function failed") }
+	e.Fast = func(xs ...interface{}) interface{} { log.add("Fast", xs...); return len(xs) }
+	e.Sum = func(xs ...int) int {
+		as := make([]interface{}, len(xs))
+		s := 0
+		for i, x := range xs {
+			as[i] = x
+			s += x
 		}
+		log.add("Sum", as...)
+		return s
 	}
+	e.Half = func(x float64) float64 { log.add("Half", x); return x / 2 }
+	e.I64f = func(x int64) int64 { log.add("I64f", x); return x }
+	registerFn("Id", e.Id)
+	registerFn("Inc", e.Inc)
+	registerFn("Add", e.Add)
+	registerFn("Cat", e.Cat)
+	registerFn("IsPos", e.IsPos)
+	registerFn("Fail", e.Fail)
+	registerFn("Fast", e.Fast)
+	registerFn("Sum", e.Sum)
+	registerFn("Half", e.Half)
+	registerFn("I64", e.I64f)
+	return e
 }
 
-// zooEnvs lists the environments: every struct shape by value and by pointer, then the maps.
-func zooEnvs(rng *rand.Rand, nRandom int) []zooEnv {
-	var out []zooEnv
-	shapes := []interface{}{
-		EnvShadowBefore{}, EnvShadowAfter{}, EnvAmbig{}, EnvDepth{}, EnvDepthRev{}, EnvDepth3{}, EnvAmbigDeep{},
-		EnvPtrEmb{}, EnvNameClashA{}, EnvNameClashB{}, EnvUnexported{}, EnvEmbScalar{}, EnvMeth{}, EnvPromV{}, EnvPromP{},
-		EnvMethClash{}, EnvMethVsField{}, EnvMethShadowsField{}, EnvEmbIface{}, EnvFuncs{}, EnvNested{}, EnvRec{}, EnvScalars{},
-	}
-	for _, s := range shapes {
-		n := reflect.TypeOf(s).Name()
-		out = append(out, zooEnv{n, popIface(s)})
-		out = append(out, zooEnv{"*" + n, popPtr(s)})
-	}
-	// maps
-	fInt := func(i int) int { return i + 1 }
-	out = append(out,
-		zooEnv{"map[string]interface{}", map[string]interface{}{
-			"a": 1, "s": "x", "f": fInt, "st": popIface(EnvDepth{}), "pst": popPtr(EnvAmbig{}), "nilv": nil,
-			"m": map[string]interface{}{"k": 1}, "Fast": func(xs ...interface{}) interface{} { return len(xs) },
-		}},
-		zooEnv{"map[string]int", map[string]int{"a": 1, "b": 2}},
-		zooEnv{"map[string]ZA", map[string]ZA{"za": {1, "y"}}},
-		zooEnv{"map[string]func(int)int", map[string]func(int) int{"f": fInt}},
-		zooEnv{"map[ZMyStr]int", map[ZMyStr]int{"a": 1}},
-		zooEnv{"map[int]string", map[int]string{1: "a"}},
-		zooEnv{"map[interface{}]interface{}", map[interface{}]interface{}{"a": 1, 2: "b"}},
-		zooEnv{"EnvNamedMap", EnvNamedMap{"a": 1, "f": fInt}},
-	)
-	for i := 0; i < nRandom; i++ {
-		t := randomStructType(rng, 3)
-		out = append(out, zooEnv{fmt.Sprintf("structof#%d", i), populate(t, 0).Interface()})
-	}
-	return out
-}
-
-// randomStructType builds a method-less struct shape with reflect.StructOf: field names from a small
-// alphabet (so that clashes at several depths are frequent), embedded structs by value.
-// (reflect.StructOf does not support embedded pointers to structs with promoted fields reliably nor
-// unexported fields without a package path, so those are covered by the declared zoo above.)
-func randomStructType(rng *rand.Rand, depth int) reflect.Type {
-	names := []string{"X", "Y", "Z", "W"}
-	leaf := []reflect.Type{reflect.TypeOf(0), reflect.TypeOf(""), reflect.TypeOf(1.5), reflect.TypeOf(true), reflect.TypeOf(uint8(0))}
-	embNames := []string{"EA", "EB", "EC"}
-	for try := 0; ; try++ {
-		var fields []reflect.StructField
-		used := map[string]bool{}
-		n := 1 + rng.Intn(4)
-		for i := 0; i < n; i++ {
-			if depth > 0 && rng.Intn(3) == 0 {
-				en := embNames[rng.Intn(len(embNames))]
-				if used[en] {
-					continue
-				}
-				used[en] = true
-				fields = append(fields, reflect.StructField{Name: en, Type: randomStructType(rng, depth-1), Anonymous: true})
-			} else {
-				fn := names[rng.Intn(len(names))]
-				if used[fn] {
-					continue
-				}
-				used[fn] = true
-				fields = append(fields, reflect.StructField{Name: fn, Type: leaf[rng.Intn(len(leaf))]})
-			}
-		}
-		if len(fields) == 0 {
+// AsMap returns the same members as a map[string]interface{} environment.
+func (e *Env) AsMap() map[string]interface{} {
+	m := map[string]interface{}{}
+	rv := reflect.ValueOf(e).Elem()
+	rt := rv.Type()
+	for i := 0; i < rt.NumField(); i++ {
+		f := rt.Field(i)
+		if f.PkgPath != "" {
 			continue
 		}
-		var t reflect.Type
-		func() {
-			defer func() { recover() }()
-			t = reflect.StructOf(fields)
-		}()
-		if t != nil {
-			return t
-		}
-		if try > 20 {
-			return reflect.TypeOf(struct{ X int }{})
-		}
+		m[f.Name] = rv.Field(i).Interface()
 	}
+	return m
 }
+
+func (e *Env) ResetLog()        { e.log.Calls = nil }
+func (e *Env) Log() []string    { return append([]string(nil), e.log.Calls...) }
+func (e *Env) String() string   { return fmt.Sprintf("%+v", *e) }
